@@ -80,7 +80,7 @@ def run_case(case_id, pre_abs, msg_abs, seed, keep_xml=False):
     if not project.bind(msg_abs, msg_proj, table):
         raise Machinery("gamma/alpha round trip failed for message of case %s: %r vs %r" % (case_id, msg_abs, msg_proj))
     ev = {"id": case_id, "obj": 0, "k": "merge", "pre": pre_abs, "msg": msg_abs,
-          "intact": True, "cls": "", "completed_eq": True}
+          "intact": True, "cls": "", "completed_eq": True, "acc_eq": True, "expose_intact": True}
     try:
         m = parse_msg(msg_xml)
         cls_seen = type(m).__name__
